@@ -59,7 +59,7 @@ func run(c *lib.Ctx) error {
 	// ---- M
 	mMax, mPool, mSets := 4, "tiny", "{15}"
 	if c.Thorough() {
-		mMax, mPool, mSets = 3, "small", "1..30"
+		mMax, mPool, mSets = 4, "tiny", "1..30"
 	}
 	c.Set("model_bounds", map[string]any{"max_len": mMax, "pool": mPool, "spec_sets": mSets})
 	mcfg := fmt.Sprintf("CONSTANT MaxLen = %d\nCONSTANT PoolSel = \"%s\"\nCONSTANT SpecNums = %s\nINIT Init\nNEXT Next\n"+
@@ -86,17 +86,17 @@ func run(c *lib.Ctx) error {
 	// ---- G
 	var runs []genRun
 	if c.Quick() {
-		sets := append(append([]int{}, l9...), 28, 29, 30)
 		runs = []genRun{
-			{name: "full2", pool: "full", maxLen: 2, sets: sets, builtinMod: 3},
-			{name: "small3", pool: "small", maxLen: 3, sets: []int{1, 15, 26}, exactLen: true, builtinMod: 5},
+			{name: "full2", pool: "full", maxLen: 2, sets: seq(1, 30), builtinMod: 3},
+			{name: "small3", pool: "small", maxLen: 3, sets: []int{1, 9, 15, 22, 26, 30}, exactLen: true, builtinMod: 5, perJob: 3},
 			{name: "extra2", pool: "extra", maxLen: 2, sets: []int{5, 28, 29, 30}, builtinMod: 1},
 		}
 	} else {
 		runs = []genRun{
 			{name: "full2", pool: "full", maxLen: 2, sets: seq(1, 30), builtinMod: 2},
-			{name: "small3", pool: "small", maxLen: 3, sets: seq(1, 30), exactLen: true, builtinMod: 7},
-			{name: "tiny4", pool: "tiny", maxLen: 4, sets: append(append([]int{}, l9...), 30), exactLen: true, builtinMod: 7},
+			{name: "small3", pool: "small", maxLen: 3, sets: seq(1, 30), exactLen: true, builtinMod: 7, perJob: 5},
+			{name: "full3", pool: "full", maxLen: 3, sets: []int{1, 15, 26}, exactLen: true, builtinMod: 11, perJob: 1},
+			{name: "tiny4", pool: "tiny", maxLen: 4, sets: append(append([]int{}, l9...), 30), exactLen: true, builtinMod: 7, perJob: 5},
 			{name: "extra2", pool: "extra", maxLen: 2, sets: []int{5, 11, 28, 29, 30}, builtinMod: 1},
 		}
 	}
@@ -112,7 +112,7 @@ func run(c *lib.Ctx) error {
 	c.Set("builtin_cases", map[string]any{"flag:parse-getopt": g.nFlag, "edit:complete-getopt": g.nEdit})
 
 	// ---- V
-	vc := randomCases(c, c.Pick(3000, 40000))
+	vc := randomCases(c, c.Pick(6000, 40000))
 	// the Unspecified generated cases are only held to SaneResult: a seeded sample in the quick tier
 	us := g.unspec
 	if c.Quick() && len(us) > 3000 {
